@@ -156,6 +156,11 @@ def c03(scn, out):
                 if x.name in metas and metas[x.name] != x.result_meta:
                     bad.append(('instance-meta-differs', f'equal instances of {x.name} carry different result_meta'))
                 metas[x.name] = x.result_meta
+                own = out.trace.metas.get(x.name)
+                if own is not None and x.result_meta != own:
+                    bad.append(('instance-marked-with-foreign-outcome', f'an instance of {x.name} carries result_meta '
+                                f'{x.result_meta}, but the runner reported {own} for {x.name} (it is the outcome of: '
+                                f'{[n for n, m in out.trace.metas.items() if m == x.result_meta]})'))
     return bad, ninst, nloads
 
 
@@ -379,3 +384,42 @@ def c17(scn, out):
             bad.append(('dependency-unreadable', f"{e['name']} could not read {e['dep']} ({e['raised']}): result "
                         f"released too early or never provided"))
     return bad, checks
+
+
+# ---------------------------------------------------------------- C02, second call on the same task objects
+def c02_second(scn, out):
+    """After a second run_tasks call (bust_cache=True, generation 2) with the same Lab and the same task objects,
+    every dependency read must return that dependency's value *from the second call* (or raise if it failed)."""
+    from .gen import closure
+    spec = scn['spec']
+    sec = out.second
+    bad = []
+    if not sec:
+        return bad, 0
+    req = scn.get('requested') or spec['requested']
+    E2 = closure(spec, req)
+    failing2 = set((scn['second_run'].get('failing') or {})) & E2
+    tainted2 = taint(spec, failing2, E2)
+    from .model import ref_value
+    ctx = ctx_of(scn)
+    memo = {}
+    nreads = 0
+    for e in sec['events']:
+        if e['k'] != 'read' or e.get('gen', 2) != 2:
+            continue
+    for e in sec['events']:
+        if e['k'] != 'read':
+            continue
+        nreads += 1
+        d = e['dep']
+        if d in tainted2:
+            if 'raised' not in e:
+                bad.append(('stale-read-of-failed-dep', f"second call: {e['name']} read dependency {d}, which failed in this "
+                            f"call, and got {e.get('v')} (a value from the earlier call)"))
+        elif 'raised' in e:
+            bad.append(('dep-read-raised', f"second call: {e['name']} could not read {d}: {e['raised']}"))
+        else:
+            want = ref_value(spec, d, ctx, lambda _n: 2, memo)
+            if tuple(e['v']) != tuple(want):
+                bad.append(('stale-dep-read', f"second call: {e['name']} read {e['v']} for {d}; this call computed {want}"))
+    return bad, nreads
